@@ -27,7 +27,7 @@ import json
 from mc import core, explorer
 
 NEEDS_BRIDGEPOINT = False
-BUDGET_S = {'quick': 600, 'thorough': 3000}
+BUDGET_S = {'quick': 1800, 'thorough': 7200}
 ASSUMPTIONS = [
     'one schema family (two classes, one association, identifiers) in three chunks; every chunk accepted at most once, in '
     'any order (instances before their schema included); names and values from one of three isomorphic palettes (VERIF_SEED)',
@@ -123,9 +123,7 @@ def mutate(xtuml, m, op):
         if name == 'define_class':
             m.define_class(a[0], [tuple(x) for x in a[1]])
             return 'ok'
-    except xtuml.MetaException as e:
-        return type(e).__name__
-    except (IndexError, AttributeError, KeyError, TypeError, ValueError) as e:
+    except Exception as e:
         return type(e).__name__
     raise ValueError(op)
 
@@ -222,8 +220,8 @@ class LoaderModel(explorer.Model):
                 w.loader.input(self.chunks[op[1]])
                 got = 'ok'
                 w.accepted.append(op[1])
-            except xtuml.ParsingException:
-                got = 'ParsingException'
+            except Exception as e:
+                got = type(e).__name__
                 w.rejected += 1
             return got, exp
         if op[0] == 'build':
@@ -234,12 +232,12 @@ class LoaderModel(explorer.Model):
             try:
                 replica = fresh.build_metamodel(xtuml.IntegerGenerator())
                 exp = 'ok'
-            except (xtuml.MetaException, xtuml.ParsingException) as e:
+            except Exception as e:
                 replica, exp = None, type(e).__name__
             try:
                 m = w.loader.build_metamodel(xtuml.IntegerGenerator())
                 got = 'ok'
-            except (xtuml.MetaException, xtuml.ParsingException) as e:
+            except Exception as e:
                 m, got = None, type(e).__name__
             if m is not None and replica is not None:
                 w.mms.append(Built(m, replica, w.accepted))
@@ -463,7 +461,7 @@ def unit_test(model, hist, op):
     return '\n'.join(lines)
 
 
-DEPTH = {'quick': 5, 'thorough': 6}
+DEPTH = {'quick': 6, 'thorough': 7}
 
 
 def run(ctx):
